@@ -414,7 +414,7 @@ func (t *Tokenizer) Tokenize(input []byte) ([]models.TokenWithSpan, error) {
 
 	// Validate input size to prevent DoS attacks
 	if len(input) > MaxInputSize {
-		err := errors.InputTooLargeError(int64(len(input)), MaxInputSize, models.Location{Line: 1, Column: 0})
+		err := errors.InputTooLargeError(int64(len(input)), MaxInputSize, models.Location{Line: 1, Column: 1})
 		metrics.RecordTokenization(time.Since(startTime), len(input), err)
 		return nil, err
 	}
@@ -553,7 +553,7 @@ func (t *Tokenizer) TokenizeContext(ctx context.Context, input []byte) ([]models
 
 	// Validate input size to prevent DoS attacks
 	if len(input) > MaxInputSize {
-		err := errors.InputTooLargeError(int64(len(input)), MaxInputSize, models.Location{Line: 1, Column: 0})
+		err := errors.InputTooLargeError(int64(len(input)), MaxInputSize, models.Location{Line: 1, Column: 1})
 		metrics.RecordTokenization(time.Since(startTime), len(input), err)
 		return nil, err
 	}
